@@ -9,5 +9,5 @@ trap 'cd /repo && git checkout -- . >/dev/null 2>&1' EXIT
 for p in "$@"; do
   out=$(/verif/check "$p" --budget "$budget" 2>&1); rc=$?
   echo "== $p exit=$rc"
-  echo "$out" | grep -E "^VIOLATION|clause=|^check |TROUBLE" | cut -c1-260 | head -8
+  echo "$out" | grep -v "^KNOWN" | grep -E "^VIOLATION|clause=|^check |TROUBLE" | cut -c1-260 | head -8
 done
